@@ -1,6 +1,7 @@
 import Rie.Proofs.Sys
 import Rie.Proofs.SysInv
 import Rie.Proofs.Payload
+import Rie.Props.FrontEndTable
 
 /-!
 # C01 — Invocation round trip is byte-exact and yields exactly one outcome
@@ -89,6 +90,38 @@ theorem C01_one_outcome (s0 : State) (h0 : Initial s0) (ops : List (Nat × Op)) 
   have i := inv_run s0 ops (inv_initial s0 h0) (by simpa using hfresh)
   simp only [List.nil_append] at i
   exact ⟨i.once, i.sub, i.excl⟩
+
+/-- **One outcome at the HTTP level** (front end, `cmd/aws-lambda-rie/handlers.go`; the table is
+    regenerated from the source and proved equal to the model's, `FrontEndTable.gen_frontend_matches`).
+    Whatever error `sandbox.Invoke` returned — any string, also one no case names — and whatever status
+    the emulator core put into the response proxy, the caller's HTTP response consists of at most one
+    thing: the proxy's body (the runtime's response or the platform's error) *or* the front end's
+    time-out text, never both; and for the time-out it is exactly the time-out text. -/
+theorem C01_frontend_one_outcome (err : Option String) (proxyStatus : Nat) :
+    (Rie.FrontEnd.respond err proxyStatus).chunks.length ≤ 1 ∧
+    Rie.FrontEnd.respond (some "ErrInvokeTimeout") proxyStatus = { status := 0, chunks := [.timeoutMsg] } ∧
+    Rie.FrontEnd.respond none proxyStatus = { status := proxyStatus, chunks := [.body] } := by
+  refine ⟨?_, ?_, ?_⟩
+  · -- every row of the table, and the tail, writes at most one chunk
+    have hrows : ∀ row ∈ Rie.FrontEnd.table, ∀ ps : Nat,
+        (let (r, returned) := Rie.FrontEnd.run ps row.2 {}
+         if returned then r else (Rie.FrontEnd.run ps Rie.FrontEnd.tail r).1).chunks.length ≤ 1 := by
+      intro row hrow ps
+      simp only [Rie.FrontEnd.table, List.mem_cons, List.not_mem_nil, or_false] at hrow
+      rcases hrow with h | h | h | h | h | h | h | h | h | h | h | h <;> subst h <;>
+        simp [Rie.FrontEnd.run, Rie.FrontEnd.tail, Rie.FrontEnd.setStatus] <;> (try (split <;> simp))
+    have htail : ∀ ps : Nat, (Rie.FrontEnd.run ps Rie.FrontEnd.tail {}).1.chunks.length ≤ 1 := by
+      intro ps; simp [Rie.FrontEnd.run, Rie.FrontEnd.tail]; split <;> simp [Rie.FrontEnd.setStatus]
+    unfold Rie.FrontEnd.respond
+    cases err with
+    | none => exact htail proxyStatus
+    | some e =>
+      dsimp only
+      cases hf : Rie.FrontEnd.table.find? (·.1.contains e) with
+      | none => exact htail proxyStatus
+      | some row => exact hrows row (List.mem_of_find?_eq_some hf) proxyStatus
+  · simp [Rie.FrontEnd.respond, Rie.FrontEnd.table, Rie.FrontEnd.run]
+  · by_cases h : proxyStatus = 0 <;> simp [Rie.FrontEnd.respond, Rie.FrontEnd.run, Rie.FrontEnd.tail, Rie.FrontEnd.setStatus, h]
 
 -- non-vacuity: a healthy invocation, then a second caller refused while a third invocation is in flight
 example :
